@@ -214,10 +214,45 @@ def check_command_roundtrip(repo: Repo, rep: Report, rule: str):
             got = out_cmds(o.value)
             if [(c, tuple(map(repr, x))) for c, x in got] != [(c, tuple(map(repr, x))) for c, x in cmds]:
                 bad = f"from_commands({_showsym(cmds)}) reads back as {_showsym(got)}"
+    # the same through the text: integer-valued commands are printed (from_commands -> _add_cmd -> path_segment/ntos, uninterpreted hooks off) and the
+    # printed string is read back by SVGPath.__iter__ and by the reference grammar reader
+    tseqs = [
+        [("M", (1, 2)), ("L", (3, -4)), ("M", (5, 6)), ("M", (7, 8)), ("C", (1, 2, 3, 4, 5, 6)), ("A", (2, 3, 0, 1, 0, 9, 9)), ("H", (4,)), ("Z", ())],
+        [("m", (1, 2)), ("l", (3, 4)), ("l", (-5, -6)), ("z", ()), ("m", (0, 0)), ("q", (1, 1, 2, 0)), ("t", (2, 0)), ("s", (1, 1, 2, 2)), ("v", (-3,)), ("a", (1, 1, 0, 0, 1, 2, 2)), ("c", (0, 0, 1, 1, 2, 2))],
+        [("M", (10, 20)), ("L", (30, 40)), ("L", (50, 60)), ("Z", ()), ("Z", ())],
+        [("M", (0, 0)), ("A", (5, 5, 0, 1, 1, 10, 0)), ("A", (5, 5, 0, 0, 0, 0, 0))],
+    ]
+    it_fn = method_of(repo, "svg_types", "SVGPath", "__iter__")
+    rep.saw("svg_types.SVGPath.__iter__", "svg_types.SVGPath._add_cmd", "svg_meta.path_segment")
+    for cmds in tseqs:
+        for o in explore(repo, fn, [], fresh_args=lambda cmds=cmds: ([ClassRef("svg_types", "SVGPath"), list(cmds)], {}), max_paths=8):
+            n += 1
+            if o.undecided:
+                raise AnalysisError(f"{F}: the evaluator cannot interpret the printing of {_showsym(cmds)}: {o.undecided}")
+            if o.raised:
+                bad = f"from_commands({_showsym(cmds)}) raises {o.raised}"
+                continue
+            d = o.value.f.get("d")
+            if not isinstance(d, str):
+                raise AnalysisError(f"{F}: printed path data is not a constant string for constant commands: {d!r}")
+            ref = reference(d, True)
+            norm = lambda cs: [(c, tuple(Fraction(str(a)) for a in args)) for c, args in cs]
+            if ref == "ValueError" or norm(ref) != norm(cmds):
+                bad = f"from_commands({_showsym(cmds)}) prints {d!r}, which the path grammar reads as {ref if ref == 'ValueError' else _show(norm(ref))}"
+                continue
+            for o2 in explore(repo, it_fn, [o.value], max_paths=8):
+                if o2.undecided:
+                    raise AnalysisError(f"svg_types.SVGPath.__iter__: the evaluator cannot interpret reading {d!r}: {o2.undecided}")
+                if o2.raised:
+                    bad = f"reading back {d!r} raises {o2.raised}"
+                    continue
+                back = o2.value if isinstance(o2.value, list) else list(o2.value)
+                if norm([(c, tuple(a)) for c, a in back]) != norm(cmds):
+                    bad = f"{d!r} (printed from {_showsym(cmds)}) is read back as {_show(norm([(c, tuple(a)) for c, a in back]))}"
     if bad:
         rep.fail(rule, F, "command sequences through from_commands / update_path", bad[:400], st, st.functions.get("SVGPath.from_commands"))
     else:
-        rep.ok(rule, F, f"{len(seqs)} command sequences (repeated and trailing movetos, double closepath, every letter): read back unchanged", True)
+        rep.ok(rule, F, f"{len(seqs)} command sequences (repeated and trailing movetos, double closepath, every letter): read back unchanged; {len(tseqs)} integer-valued sequences printed, the text read back by __iter__ and by the grammar: same commands", True)
 
 
 def _showsym(cmds):
